@@ -618,13 +618,19 @@ impl Printf {
                 } => match format_directive(file_info, directive) {
                     Ok(content) => {
                         if let Some(width) = width {
-                            match justify {
-                                Justify::Left => {
-                                    write!(out, "{content:<width$}").unwrap();
-                                }
-                                Justify::Right => {
-                                    write!(out, "{content:>width$}").unwrap();
-                                }
+                            // Padded by hand: the formatting machinery refuses
+                            // (panics on) widths above 65535.
+                            let mut blanks = width.saturating_sub(content.chars().count());
+                            if matches!(justify, Justify::Left) {
+                                write!(out, "{content}").unwrap();
+                            }
+                            while blanks > 0 {
+                                let n = blanks.min(64);
+                                write!(out, "{:n$}", "").unwrap();
+                                blanks -= n;
+                            }
+                            if matches!(justify, Justify::Right) {
+                                write!(out, "{content}").unwrap();
                             }
                         } else {
                             write!(out, "{content}").unwrap();
